@@ -84,6 +84,42 @@ def check(repo: Repo, rep: Report) -> None:
                "selector raises, the error fan-out does not reach that window (it never terminates and keeps its reference on the sources)")
     rep.rule("T1-rollover", "window_with_time: close iff next_span <= next_shift, open iff next_shift <= next_span (both when equal), evaluated for the three orderings", floor=4)
     rule_rollover(repo, rep)
+    # drain-style fan-out (`while q: q.pop(0).on_error(e)`): the loop runs while the collection is non-empty
+    rep.rule("F4-drain-fan-out", "a terminal handler that drains the open windows loops while the collection is non-empty", floor=2)
+    for rel_, q_ in (("reactivex/operators/_windowwithcount.py", "window_with_count_.subscribe"),):
+        rt = repo.fn(rel_, q_)
+        for g_ in rt.walk():
+            if not g_.is_func:
+                continue
+            for nd in g_.direct_nodes():
+                if isinstance(nd, ast.While) and any(isinstance(c, ast.Call) and isinstance(c.func, ast.Attribute) and c.func.attr in ("on_error", "on_completed") for c in ast.walk(nd)):
+                    pops = [c for c in ast.walk(nd) if isinstance(c, ast.Call) and isinstance(c.func, ast.Attribute) and c.func.attr in ("pop", "popleft")]
+                    coll = u(pops[0].func.value) if pops else "?"
+                    okw = bool(pops) and u(nd.test) in (coll, f"len({coll}) > 0", f"len({coll})", f"len({coll}) != 0")
+                    rep.ob("F4-drain-fan-out", g_, f"{g_.qual}: `while {short(nd.test, 30)}: {coll}.pop().on_*`", okw,
+                           f"{g_.qual}: the drain loop does not run exactly while `{coll}` is non-empty: open windows never receive the terminal "
+                           f"notification (or the loop pops from an empty collection)")
+    # window_with_time_or_count: every rollover (by time, by count) starts a new window generation, and the first window has a timer
+    rep.rule("T2-generation", "window_with_time_or_count: each rollover advances the window id before arming the next timer; the first window's timer is armed in subscribe", floor=3)
+    wt_ = repo.fn("reactivex/operators/_windowwithtimeorcount.py", "window_with_time_or_count_.subscribe")
+    ct_ = wt_.child("create_timer")
+    ids_ = set()
+    if ct_ is not None and ct_.child("action") is not None:
+        from ..rules import names_augmented as _na
+        ids_ = set(_na(ct_.child("action"), ast.Add)) & set(_na(wt_.child("on_next") or ct_, ast.Add))
+    rep.ob("T2-generation", wt_, f"window id cell {sorted(ids_) or '?'} advanced by the timer action and by the count rollover", len(ids_) == 1,
+           "window_with_time_or_count does not advance one window generation id in both rollovers: a timer armed for a window that was "
+           "already closed by the count still fires and closes the next window early")
+    if len(ids_) == 1:
+        wid = next(iter(ids_))
+        for g_ in (ct_.child("action"), wt_.child("on_next")):
+            bump = [x for x in sites(g_) if isinstance(x.node, ast.AugAssign) and u(x.node.target) == wid]
+            opens = [x for x in sites(g_) if isinstance(x.node, ast.Call) and u(x.node.func) == f"{wt_.params[0]}.on_next"]
+            rep.ob("T2-generation", g_, f"{g_.qual}: `{wid} += 1` on the path that opens the next window", bool(bump) and bool(opens) and bump[0].ctx.branch == opens[0].ctx.branch and bump[0].index < opens[0].index,
+                   f"{g_.qual} opens the next window without advancing the window id first")
+    first = [x for x in sites(wt_) if isinstance(x.node, ast.Call) and isinstance(x.node.func, ast.Name) and ct_ is not None and x.node.func.id == ct_.name and not x.ctx.branch]
+    rep.ob("T2-generation", wt_, "subscribe arms the timer of the first window", bool(first),
+           "window_with_time_or_count never arms a timer for its first window: that window is closed by the count only, however long it lives")
     # window_toggle: a source element lives for a zero-length duration
     rep.rule("Z1-zero-length-element", "window_toggle gives each source element a duration that ends inside its own subscribe (empty() on the immediate scheduler)", floor=2)
     wt = repo.fn("reactivex/operators/_window.py", "window_toggle_")
